@@ -144,8 +144,10 @@ class HeapExecutor(PureExecutor):
     def classes_of(self, v, st, node=None):
         """Possible concrete classes of reference value v, as list of (ClassName, condition)."""
         ks = st.kcls.get(v)
-        if ks is None and v.op == 'ctor' and v.args[0] == 'VRef':
-            ks = st.kcls.get(v)
+        if ks is None:
+            sname = self.classes_of_static(v) if hasattr(self, 'classes_of_static') else None
+            if sname is not None:
+                return [(sname, TRUE)]
         if ks is None:
             return None
         ks = sorted(ks)
@@ -369,6 +371,17 @@ class HeapExecutor(PureExecutor):
     def class_attr_value(self, node, ci):
         if isinstance(node, ast.Constant):
             return self.lit(node.value)
+        if isinstance(node, ast.Attribute) and isinstance(node.value, ast.Name):
+            # _format = fmt.Section : module-level singleton of another module
+            imp = ci.module.imports.get(node.value.id)
+            if imp is not None:
+                dotted = (imp[1] + imp[2] if imp[1].endswith('.') else imp[1] + '.' + imp[2]) \
+                    if imp[0] == 'from' else imp[1]
+                tgt = self.find_module(dotted, ci.module)
+                if tgt is not None:
+                    v = self.resolve_module_value(tgt, node.attr)
+                    if v is not None:
+                        return v
         if isinstance(node, ast.Dict) and not node.keys:
             return tm.Ctor('VOpq', const('clsattr_%s_emptydict' % ci.name, INT))
         raise Unsupported('class attribute default %s' % ast.dump(node)[:60])
